@@ -47,15 +47,25 @@ type runDesc struct {
 	N int  `json:"n"` // number of consecutive vertices carrying this value
 	V []fl `json:"v"`
 }
+// sliceRef: elements Off .. Off+Len-1 of backing array number Pool.  Two inputs that refer to the same pool
+// share that backing array in the Go scene (sub-slices: prefix, suffix, overlapping, identical), so the
+// description distinguishes "same array", "overlapping views of one array" and "equal by value".
+type sliceRef struct {
+	Pool int `json:"pool"`
+	Off  int `json:"off"`
+	Len  int `json:"len"`
+}
 type attrDesc struct {
 	Name string    `json:"name"`
 	K    int       `json:"k"` // 2, 3 or 4
 	Runs []runDesc `json:"runs"`
+	Ref  *sliceRef `json:"ref,omitempty"` // data = AttrPool[Pool] elements Off..Off+Len (Runs ignored)
 }
 type meshDesc struct {
-	Point bool       `json:"point"`
-	Attrs []attrDesc `json:"attrs"`
-	Idx   []int      `json:"idx"`
+	Point  bool       `json:"point"`
+	Attrs  []attrDesc `json:"attrs"`
+	Idx    []int      `json:"idx"`
+	IdxRef *sliceRef  `json:"idx_ref,omitempty"` // indices = IdxPool[Pool][Off:Off+Len] (Idx ignored)
 }
 type samplerDesc struct {
 	Name                   string `json:"name"`
@@ -102,6 +112,8 @@ type modelDesc struct {
 	R        *[4]fl     `json:"r"`
 	S        *[3]fl     `json:"s"`
 	Inst     []instDesc `json:"inst"`
+	InstRef  *sliceRef  `json:"inst_ref,omitempty"` // GpuInstances = InstPool[Pool][Off:Off+Len] (Inst ignored)
+	SameAs   *int       `json:"same_as,omitempty"`  // this entry of Models is the same PolyformModel value as entry SameAs (< own index)
 }
 type lightDesc struct {
 	Type      string     `json:"type"`
@@ -118,6 +130,68 @@ type sceneDesc struct {
 	Materials []matDesc     `json:"materials"`
 	Models    []modelDesc   `json:"models"`
 	Lights    []lightDesc   `json:"lights"`
+	AttrPool  []attrDesc    `json:"attr_pool,omitempty"` // backing arrays of attribute data
+	IdxPool   [][]int       `json:"idx_pool,omitempty"`  // backing arrays of indices
+	InstPool  [][]instDesc  `json:"inst_pool,omitempty"` // backing arrays of GPU instances
+}
+
+// sliceRuns is the run-length description of elements off..off+n of the sequence runs describes
+func sliceRuns(runs []runDesc, off, n int) []runDesc {
+	var out []runDesc
+	for _, r := range runs {
+		if n == 0 {
+			break
+		}
+		if off >= r.N {
+			off -= r.N
+			continue
+		}
+		k := r.N - off
+		if k > n {
+			k = n
+		}
+		out = append(out, runDesc{N: k, V: r.V})
+		off = 0
+		n -= k
+	}
+	return out
+}
+
+// resolveDesc materialises every reference: the by-value scene the writer has to reproduce (what the model
+// and the oracles are given); aliasing is only in the Go scene built from the unresolved description.
+func resolveDesc(d sceneDesc) sceneDesc {
+	r := d
+	r.Meshes = make([]meshDesc, len(d.Meshes))
+	for i, m := range d.Meshes {
+		nm := m
+		nm.Attrs = make([]attrDesc, len(m.Attrs))
+		for j, a := range m.Attrs {
+			if a.Ref != nil {
+				p := d.AttrPool[a.Ref.Pool]
+				a = attrDesc{Name: a.Name, K: p.K, Runs: sliceRuns(p.Runs, a.Ref.Off, a.Ref.Len)}
+			}
+			nm.Attrs[j] = a
+		}
+		if m.IdxRef != nil {
+			nm.Idx = append([]int{}, d.IdxPool[m.IdxRef.Pool][m.IdxRef.Off:m.IdxRef.Off+m.IdxRef.Len]...)
+			nm.IdxRef = nil
+		}
+		r.Meshes[i] = nm
+	}
+	r.Models = make([]modelDesc, len(d.Models))
+	for i, mo := range d.Models {
+		if mo.SameAs != nil {
+			r.Models[i] = r.Models[*mo.SameAs]
+			continue
+		}
+		if mo.InstRef != nil {
+			mo.Inst = append([]instDesc{}, d.InstPool[mo.InstRef.Pool][mo.InstRef.Off:mo.InstRef.Off+mo.InstRef.Len]...)
+			mo.InstRef = nil
+		}
+		r.Models[i] = mo
+	}
+	r.AttrPool, r.IdxPool, r.InstPool = nil, nil, nil
+	return r
 }
 
 // texture slots of each material extension in the order ToMaterialExtensionData hands them to AddTexture
@@ -180,38 +254,96 @@ func fat(f []fl, i int) float64 {
 	return 0
 }
 
+func vec4s(runs []runDesc) []vector4.Float64 {
+	var data []vector4.Float64
+	for _, r := range runs {
+		for i := 0; i < r.N; i++ {
+			data = append(data, vector4.New(float64(r.V[0]), float64(r.V[1]), float64(r.V[2]), float64(r.V[3])))
+		}
+	}
+	return data
+}
+func vec3s(runs []runDesc) []vector3.Float64 {
+	var data []vector3.Float64
+	for _, r := range runs {
+		for i := 0; i < r.N; i++ {
+			data = append(data, vector3.New(float64(r.V[0]), float64(r.V[1]), float64(r.V[2])))
+		}
+	}
+	return data
+}
+func vec2s(runs []runDesc) []vector2.Float64 {
+	var data []vector2.Float64
+	for _, r := range runs {
+		for i := 0; i < r.N; i++ {
+			data = append(data, vector2.New(float64(r.V[0]), float64(r.V[1])))
+		}
+	}
+	return data
+}
+func toTRS(in instDesc) trs.TRS {
+	return trs.New(
+		vector3.New(float64(in.T[0]), float64(in.T[1]), float64(in.T[2])),
+		quaternion.New(vector3.New(float64(in.R[0]), float64(in.R[1]), float64(in.R[2])), float64(in.R[3])),
+		vector3.New(float64(in.S[0]), float64(in.S[1]), float64(in.S[2])))
+}
+
 func build(d sceneDesc) built {
 	var b built
+	// backing arrays: built once, handed out as sub-slices
+	pool4, pool3, pool2 := map[int][]vector4.Float64{}, map[int][]vector3.Float64{}, map[int][]vector2.Float64{}
+	for i, p := range d.AttrPool {
+		switch p.K {
+		case 4:
+			pool4[i] = vec4s(p.Runs)
+		case 3:
+			pool3[i] = vec3s(p.Runs)
+		case 2:
+			pool2[i] = vec2s(p.Runs)
+		}
+	}
+	idxPool := make([][]int, len(d.IdxPool))
+	for i, p := range d.IdxPool {
+		idxPool[i] = append([]int{}, p...)
+	}
+	instPool := make([][]trs.TRS, len(d.InstPool))
+	for i, p := range d.InstPool {
+		for _, in := range p {
+			instPool[i] = append(instPool[i], toTRS(in))
+		}
+	}
 	for _, md := range d.Meshes {
 		topo := modeling.TriangleTopology
 		if md.Point {
 			topo = modeling.PointTopology
 		}
-		m := modeling.NewMesh(topo, append([]int{}, md.Idx...))
+		idx := append([]int{}, md.Idx...)
+		if r := md.IdxRef; r != nil {
+			idx = idxPool[r.Pool][r.Off : r.Off+r.Len]
+		}
+		m := modeling.NewMesh(topo, idx)
 		for _, a := range md.Attrs {
-			switch a.K {
+			k := a.K
+			if a.Ref != nil {
+				k = d.AttrPool[a.Ref.Pool].K
+			}
+			switch k {
 			case 4:
-				data := make([]vector4.Float64, 0, a.count())
-				for _, r := range a.Runs {
-					for i := 0; i < r.N; i++ {
-						data = append(data, vector4.New(float64(r.V[0]), float64(r.V[1]), float64(r.V[2]), float64(r.V[3])))
-					}
+				data := vec4s(a.Runs)
+				if r := a.Ref; r != nil {
+					data = pool4[r.Pool][r.Off : r.Off+r.Len]
 				}
 				m = m.SetFloat4Attribute(a.Name, data)
 			case 3:
-				data := make([]vector3.Float64, 0, a.count())
-				for _, r := range a.Runs {
-					for i := 0; i < r.N; i++ {
-						data = append(data, vector3.New(float64(r.V[0]), float64(r.V[1]), float64(r.V[2])))
-					}
+				data := vec3s(a.Runs)
+				if r := a.Ref; r != nil {
+					data = pool3[r.Pool][r.Off : r.Off+r.Len]
 				}
 				m = m.SetFloat3Attribute(a.Name, data)
 			case 2:
-				data := make([]vector2.Float64, 0, a.count())
-				for _, r := range a.Runs {
-					for i := 0; i < r.N; i++ {
-						data = append(data, vector2.New(float64(r.V[0]), float64(r.V[1])))
-					}
+				data := vec2s(a.Runs)
+				if r := a.Ref; r != nil {
+					data = pool2[r.Pool][r.Off : r.Off+r.Len]
 				}
 				m = m.SetFloat2Attribute(a.Name, data)
 			}
@@ -315,6 +447,10 @@ func build(d sceneDesc) built {
 		mats[i] = pm
 	}
 	for _, mo := range d.Models {
+		if mo.SameAs != nil {
+			b.scene.Models = append(b.scene.Models, b.scene.Models[*mo.SameAs]) // the same value: every pointer and slice shared
+			continue
+		}
 		pm := gltf.PolyformModel{Name: mo.Name, Mesh: b.meshes[mo.Mesh]}
 		if mo.Material >= 0 {
 			pm.Material = mats[mo.Material]
@@ -331,11 +467,14 @@ func build(d sceneDesc) built {
 			v := vector3.New(float64(mo.S[0]), float64(mo.S[1]), float64(mo.S[2]))
 			pm.Scale = &v
 		}
-		for _, in := range mo.Inst {
-			pm.GpuInstances = append(pm.GpuInstances, trs.New(
-				vector3.New(float64(in.T[0]), float64(in.T[1]), float64(in.T[2])),
-				quaternion.New(vector3.New(float64(in.R[0]), float64(in.R[1]), float64(in.R[2])), float64(in.R[3])),
-				vector3.New(float64(in.S[0]), float64(in.S[1]), float64(in.S[2]))))
+		if r := mo.InstRef; r != nil {
+			if r.Len > 0 {
+				pm.GpuInstances = instPool[r.Pool][r.Off : r.Off+r.Len]
+			}
+		} else {
+			for _, in := range mo.Inst {
+				pm.GpuInstances = append(pm.GpuInstances, toTRS(in))
+			}
 		}
 		b.scene.Models = append(b.scene.Models, pm)
 	}
